@@ -60,13 +60,19 @@ class SearchTerms:
                     break
             safe_term = "{}{}{}".format(delim, self.term, delim)
         else:
-            # Replace unescaped spaces with escaped spaces
-            safe_term = r"\ ".join(
-                list(map(
-                    lambda ele: ele.replace(" ", r"\ ")
-                    , self.term.split(r"\ ")
-                ))
-            )
+            # Escape every not-yet-escaped symbol which the parser would
+            # otherwise read as an operator or demarcation (the term may have
+            # been demarcated with quotes, which are not kept)
+            safe_term = ""
+            escape_next = False
+            for char in self.term:
+                if escape_next:
+                    escape_next = False
+                elif char == "\\":
+                    escape_next = True
+                elif char in " =!<>~^$%[]()'\"":
+                    safe_term += "\\"
+                safe_term += char
 
         return (
             "["
